@@ -219,7 +219,7 @@ func rootSourceFirst(c *Check) string {
 }
 
 func runC09(c *Check) {
-	c.Explanation = "Decides structural necessary conditions of C09 over everything outside package profile (the parser is C02): every explicit panic is in an inventory and is either discharged by an argument the checker re-verifies (config fields have only the four supported types; web handlers only pass command names that are keys of pprofCommands and parseCommandLine rejects unknown names; demangler modes assigned in Symbolize are cases of demanglerModeToOptions) or is an internal-invariant assertion supported by another rule (R1); every index or slice with constant bounds or len-k bounds is protected by a dominating length check, by its producer, or by a reviewed invariant (R2); no pointer obtained together with a discarded error is dereferenced unchecked (R3); errors of report generation reach PrintErr / http.Error and never a return or exit of the session loop (R4); every constant regular expression and every embedded HTML template compiles (R5). Not decided: hangs, arithmetic panics, nil maps in general, option values rejected late, plug-in behaviour."
+	c.Explanation = "Decides structural necessary conditions of C09 over everything outside package profile (the parser is C02): every explicit panic is in an inventory and is either discharged by an argument the checker re-verifies (config fields have only the four supported types; web handlers only pass command names that are keys of pprofCommands and parseCommandLine rejects unknown names; demangler modes assigned in Symbolize are cases of demanglerModeToOptions) or is an internal-invariant assertion supported by another rule (R1); every index or slice with constant bounds or len-k bounds is protected by a dominating length check, by its producer, or by a reviewed invariant (R2); no pointer obtained together with a discarded error is dereferenced unchecked (R3); errors of report generation reach PrintErr / http.Error and never a return or exit of the session loop (R4); every constant regular expression and every embedded HTML template compiles (R5). Also: variable index sites of the typed-command parser (R2), integer parameters used as slice bounds are non-negative at every caller (R8), work-list loops mark what they queue (R9). Not decided: hangs, arithmetic panics, nil maps in general, option values rejected late, plug-in behaviour."
 	c.panicInventory()
 	// the functions that take a typed command line apart index their tokens with running
 	// positions: there every index and slice expression is a site, not only the constant ones
